@@ -74,7 +74,7 @@ def warmup() -> None:
 MEM_TRACE = ["orchestrator/base_orchestrator.py", "orchestrator/mem_orchestrator.py", "broker/mem_broker.py", "invocation/dist_invocation.py"]
 
 
-def run(seed: int, params: dict, replay: dict | None = None, extra_oracle: Any = None, lazy_history: bool = False) -> dict:
+def run(seed: int, params: dict, replay: dict | None = None, extra_oracle: Any = None, lazy_history: bool = False, trace_extra: list[str] | None = None) -> dict:
     """extra_oracle(world) -> [violation dicts]: lets C10 ride on this scenario
     (only the extra oracle's findings are reported then)."""
     from pynenc.invocation.status import InvocationStatus
@@ -103,8 +103,8 @@ def run(seed: int, params: dict, replay: dict | None = None, extra_oracle: Any =
         policy=policy,
         policy_arg=parg,
         schedule=schedule,
-        trace_files=MEM_TRACE if stack == "mem" else None,
-        max_steps=40000,
+        trace_files=(MEM_TRACE + list(trace_extra or [])) if stack == "mem" else None,
+        max_steps=40000 if not trace_extra else 80000,
         conf={"cached_status_time": 0.0},
     ) as w:
         sim = w.sim
